@@ -236,6 +236,11 @@ func GenScenario(t *rapid.T, o GenOpts) *Scenario {
 			sc.Script.Hops[ttl] = genHop(fmt.Sprintf("hop%d", i), ttl)
 		}
 	}
+	// the write call may take time (a reply can be handled before WriteTo returns); only the parallel
+	// variants, where sender and receiver are different goroutines
+	if !sc.Serial() && oneOf(t, "write_lag", false, false, true) {
+		sc.WriteLagUs = oneOf(t, "write_lag_us", int64(1), 3, 40)
+	}
 	// noise
 	if o.Noise > 0 {
 		kinds := quoteNoiseKinds[kind]
